@@ -164,6 +164,9 @@ pub fn check(scn: &Scenario, stats: &mut Stats) -> Vec<Violation> {
             while gi < n && (s.nodes[gi].is_prog_entry || s.nodes[gi].is_func_entry) {
                 gi += 1;
             }
+            if std::env::var_os("VERIF_DEBUG").is_some() {
+                eprintln!("[c03] in_class={in_class} aligned={aligned} gi={gi} n={n} runtime={:?}", rp.instrs.iter().map(|i| i.ecall_number_is_runtime_input).collect::<Vec<_>>());
+            }
             if !aligned || gi != n {
                 stats.inc("harness:alignment_failed");
             } else {
